@@ -28,7 +28,7 @@ var Carriers = []string{"tcp", "unix", "tcp+tls", "unix+tls", "tcp+starttls", "u
 // ChanSpec describes one channel and its recording target.
 type ChanSpec struct {
 	Name      string
-	TargetNet string // "tcp" (default) or "unix"
+	TargetNet string // "unix" (default) or "tcp"
 	Tagged    bool
 	Banner    []byte
 }
@@ -95,6 +95,20 @@ func FreePort(udp bool) int {
 		if p < 40900 || p > 42100 {
 			return p
 		}
+	}
+}
+
+// ListenTCP0 listens on a kernel-chosen loopback port outside 41000-41999.
+func ListenTCP0() (net.Listener, error) {
+	for {
+		l, err := net.Listen("tcp", "127.0.0.1:0")
+		if err != nil {
+			return nil, err
+		}
+		if p := l.Addr().(*net.TCPAddr).Port; p < 40900 || p > 42100 {
+			return l, nil
+		}
+		l.Close()
 	}
 }
 
@@ -194,7 +208,9 @@ func Start(o Options) (*Pair, error) {
 	for _, cs := range o.Channels {
 		netw := cs.TargetNet
 		if netw == "" {
-			netw = "tcp"
+			// unix-domain targets live in the child's private directory: no other process can ever
+			// connect to them by accident (a kernel-chosen TCP port can be hit by a stray client)
+			netw = "unix"
 		}
 		t, err := NewTarget(cs.Name, netw, sockName("t", o.Tag), cs.Tagged)
 		if err != nil {
